@@ -45,7 +45,8 @@ def gen_trav_case(rng, search=False):
 
 
 def _gen_trav_case(rng, search=False, eph=False):
-    ops, vids, lids, uid = Q.gen_graph_ops(rng, nv=rng.randint(1, 6), nl=rng.randint(0, 9), odd=rng.choice([0.0, 0.0, 0.15]))
+    ops, vids, lids, uid = Q.gen_graph_ops(rng, nv=rng.randint(1, 6), nl=rng.randint(0, 9), odd=rng.choice([0.0, 0.0, 0.15]),
+                                           shared=0.6 if search else 0.3)
     queries = []
     starts = [rng.choice(vids) for _ in range(2)]
     if search:
